@@ -53,6 +53,11 @@ def run(ctx) -> None:
     ctx.reuse("C13.mask", c10.evo_member_conversion)
     ctx.reuse("C13.mask", c10.any_rules)
     ctx.reuse("C13.mask", c10.int_map)
+    ctx.reuse("C13.mask", c10.wash_table)
+    # the command string that the formatters return is the record that ends up in the worklist (no list method re-interprets it)
+    from . import c09
+
+    ctx.reuse("C13.template", c09.list_overrides)
     ctx.guard("C13.siblings", siblings)
     ctx.guard("C13.selection-array", selection_array)
     from .common import memo_rule
